@@ -104,7 +104,7 @@ class NetworkXGraphStorageDisjoint:
                     # read of the defaultdict) does not count as present
                     if self.log is not None:
                         self.log.warn('Attempting to insert a graph with the same GraphID, skipping')
-                    self.lock.release()
+                    # the lock is released (once) by the finally clause below
                     return
                 # relabel incoming graph nodes to integers, then add
                 temp_graph = nx.convert_node_labels_to_integers(graph, 1)
